@@ -216,6 +216,8 @@ type Session struct {
 	// RealSym leaves the Sym plug-in unset, so that pprof installs its own symbolizer (local
 	// symbolization through Obj, remote through Tr, demangling).
 	RealSym bool
+	// RealWriter leaves the Writer plug-in unset: reports go to real files through pprof's own writer.
+	RealWriter bool
 }
 
 // Result of a session.
@@ -291,6 +293,9 @@ func RunNoReset(s *Session) (res *Result) {
 	o := &plugin.Options{
 		Writer: s.W, Flagset: s.Flags, Fetch: s.Fetch, Sym: s.Sym, Obj: s.Obj, UI: s.UI,
 		HTTPTransport: s.Tr,
+	}
+	if s.RealWriter {
+		o.Writer = nil // pprof's own writer: real files, relative to the working directory
 	}
 	if o.HTTPTransport == nil {
 		o.HTTPTransport = failTransport{}
